@@ -374,6 +374,123 @@ theorem rclLoop_cnt (d : List Nat) (hb : Bytes d) (T : Nat) (hT : T ≤ 65535) :
                 rw [this, ih']; omega
 
 
+/-! ### relation to the list transcription of check C09 -/
+
+/-- the value `rclAccum` computes, in the form Model/Glyf.lean (check C09) writes it -/
+theorem rclAccum_exact (f repeats x y left T : Nat) (hT : T ≤ 65535) (hr : repeats ≤ left)
+    (hx : x + 2 * left ≤ 2 * T) (hy : y + 2 * left ≤ 2 * T) :
+    rclAccum f repeats x y left = some
+      (x + (if hasBit f X_SHORT then repeats else 0) + (if (f &&& (X_SHORT ||| X_SAME)) = 0 then repeats * 2 else 0),
+       y + (if hasBit f Y_SHORT then repeats else 0) + (if (f &&& (Y_SHORT ||| Y_SAME)) = 0 then repeats * 2 else 0),
+       left - repeats) := by
+  unfold rclAccum hasBit
+  simp only [U32_MAX]
+  by_cases h1 : (f &&& X_SHORT) = 0 <;> by_cases h2 : (f &&& (X_SHORT ||| X_SAME)) = 0 <;>
+  by_cases h3 : (f &&& Y_SHORT) = 0 <;> by_cases h4 : (f &&& (Y_SHORT ||| Y_SAME)) = 0
+  all_goals first
+    | exact absurd h2 (short_not_long f X_SHORT X_SAME h1)
+    | exact absurd h4 (short_not_long f Y_SHORT Y_SAME h3)
+    | (simp only [h1, h2, h3, h4, bne_self_eq_false, beq_self_eq_true, Bool.false_eq_true, if_false, if_true,
+        bne_iff_ne, ne_eq, beq_iff_eq, not_true_eq_false, not_false_eq_true, Nat.zero_mul, Nat.one_mul,
+        Nat.add_zero, Nat.zero_le]
+       simp (disch := omega) only [if_neg])
+
+def lensOpt : R Lens → Option (Nat × Nat × Nat)
+  | .ok l => some (l.flags, l.x, l.y)
+  | _ => none
+
+/-- **the cursor transcription and the list transcription of `resolve_coords_len` agree**
+(Model/HandGlyf.lean `rclLoop` ⇄ Model/Glyf.lean `resolveCoordsLen` of check C09) from every loop
+state: same `Ok` lengths, and an `Err` here is a `none` there. -/
+theorem rclLoop_eq_glyf (d : List Nat) (hb : Bytes d) (T : Nat) (hT : T ≤ 65535) :
+    ∀ (fuel : Nat) (s : RclSt), RInv d T s → d.length - s.c.pos < fuel →
+      Glyf.resolveCoordsLen (d.drop s.c.pos) s.c.pos s.left s.x s.y = lensOpt (rclLoop d fuel s) := by
+  intro fuel
+  induction fuel with
+  | zero => intro s _ h; omega
+  | succ fuel ih =>
+    intro s hi hf
+    unfold rclLoop
+    by_cases h0 : s.left = 0
+    · simp only [h0, if_true]
+      rw [rclFinish_ok d T hT s hi h0]
+      cases hd : d.drop s.c.pos <;> simp [Glyf.resolveCoordsLen, lensOpt]
+    · simp only [h0, if_false]
+      have hbf := rclBody_facts d hb T hT s hi
+      have hi0 := hi
+      obtain ⟨hp, hfl, hx, hy⟩ := hi
+      have hmax : s.c.pos + 2 ≤ MAXU := by unfold MAXU; omega
+      unfold rclBody at hbf ⊢
+      cases h1 : s.c.read d 1 with
+      | mk o c1 =>
+        rw [h1] at hbf
+        cases o with
+        | none =>
+          have rn := read_none h1
+          have hge : d.length ≤ s.c.pos := by omega
+          rw [List.drop_eq_nil_of_le hge]
+          simp [Glyf.resolveCoordsLen, h0, lensOpt]
+        | some f =>
+          have r1 := read_some h1
+          have e1 := read1_eq h1
+          have hlt : s.c.pos < d.length := by omega
+          have hd : d.drop s.c.pos = f :: d.drop (s.c.pos + 1) := by
+            rw [List.drop_eq_getElem_cons hlt]
+            congr 1
+            exact (List.getElem?_eq_some_iff.mp e1).2
+          rw [hd]
+          dsimp only at hbf ⊢
+          unfold Glyf.resolveCoordsLen
+          simp only [h0, if_false]
+          by_cases hrep : hasBit f REPEAT = true
+          · simp only [hrep, if_true] at hbf ⊢
+            cases h2 : c1.read d 1 with
+            | mk o2 c2 =>
+              rw [h2] at hbf
+              cases o2 with
+              | none =>
+                have rn := read_none h2
+                have hge : d.length ≤ s.c.pos + 1 := by omega
+                rw [List.drop_eq_nil_of_le hge]
+                simp [lensOpt]
+              | some r =>
+                have r2 := read_some h2
+                have e2 := read1_eq h2
+                have hr := read1_lt hb h2
+                have hlt2 : s.c.pos + 1 < d.length := by omega
+                have hd2 : d.drop (s.c.pos + 1) = r :: d.drop (s.c.pos + 2) := by
+                  rw [List.drop_eq_getElem_cons hlt2]
+                  congr 1
+                  rw [r1.2.2] at e2
+                  exact (List.getElem?_eq_some_iff.mp e2).2
+                rw [hd2]
+                have ha : addU32 r 1 = some (r + 1) := addU32_eq (by omega)
+                simp only [ha] at hbf ⊢
+                by_cases hgt : r + 1 > s.left
+                · simp [hgt, lensOpt]
+                · simp only [hgt, if_false] at hbf ⊢
+                  have he := rclAccum_exact f (r + 1) s.x s.y s.left T hT (by omega) hx hy
+                  rw [he] at hbf ⊢
+                  dsimp only at hbf ⊢
+                  obtain ⟨hi', _, _⟩ := hbf.1 _ rfl
+                  have := ih _ hi' (by dsimp only; omega)
+                  dsimp only at this
+                  have hc2 : c2.pos = s.c.pos + 2 := by omega
+                  rw [hc2] at this
+                  exact this
+          · simp only [hrep, Bool.false_eq_true, if_false] at hbf ⊢
+            by_cases hgt : 1 > s.left
+            · omega
+            · simp only [hgt, if_false] at hbf ⊢
+              have he := rclAccum_exact f 1 s.x s.y s.left T hT (by omega) hx hy
+              rw [he] at hbf ⊢
+              dsimp only at hbf ⊢
+              obtain ⟨hi', _, _⟩ := hbf.1 _ rfl
+              have := ih _ hi' (by dsimp only; omega)
+              dsimp only at this
+              rw [r1.2.2] at this
+              exact this
+
 /-! ## `PointIter` -/
 
 def PInv (s : PiSt) : Prop := s.rep ≤ 255 ∧ Bytes s.fd ∧ s.fd.length ≤ MAXU ∧ s.fc.pos ≤ MAXU
